@@ -59,6 +59,7 @@ type FuncSpec struct {
 	Loops     map[int]*LoopSpec
 	Lets      []LetDef
 	Trusted   bool
+	NilRecv   bool // the method is specified for a nil receiver too
 	Inline    bool
 	Pure      bool
 	Props     []string
@@ -118,7 +119,7 @@ func parseContractFile(path string, pkgPath string, ps *PkgSpec) error {
 		lines = append(lines, rawLine{t, path, i + 1})
 	}
 	// merge continuation lines
-	kw := regexp.MustCompile(`^(func|iface|extern|global|ghost|pred|arith|requires|ensures|assigns|decreases|loop|let|trusted|inline|pure|props|hint|assert|params|results)\b`)
+	kw := regexp.MustCompile(`^(func|iface|extern|global|ghost|pred|arith|requires|ensures|assigns|decreases|loop|let|trusted|nilrecv|inline|pure|props|hint|assert|params|results)\b`)
 	var merged []rawLine
 	for _, l := range lines {
 		if !kw.MatchString(l.text) && len(merged) > 0 {
@@ -222,6 +223,8 @@ func parseContractFile(path string, pkgPath string, ps *PkgSpec) error {
 				}
 			case "trusted":
 				cur.Trusted = true
+			case "nilrecv":
+				cur.NilRecv = true
 			case "inline":
 				cur.Inline = true
 			case "pure":
